@@ -54,6 +54,11 @@ func newMultiEnv(c *fw.Ctx, specs []drive.Spec) (*reqEnv, error) {
 			p.OnReadStart(r.w, h)
 		}
 	}
+	r.w.OnBeforeFilter = func(h *simnet.Handle, s packets.PacketFilterSpec) {
+		for _, p := range r.peers {
+			p.OnBeforeFilter(r.w, h, s)
+		}
+	}
 	r.w.OnEmit = r.onEmit
 	return r, nil
 }
